@@ -346,7 +346,7 @@ func TestC12Trees(t *testing.T) {
 // ---- histories -------------------------------------------------------------------------------------------------------
 
 type c12Action struct {
-	Kind   string // ptrace unshare build destroy execve open symlink delete reset failing-build ping userns-fail (a user-namespace launch whose id map the kernel rejects)
+	Kind   string // broken-destroy (transport failure, then Destroy) ptrace unshare build destroy execve open symlink delete reset failing-build ping userns-fail (a user-namespace launch whose id map the kernel rejects)
 	Env    int
 	Target string // execve: ok fail-before fail-after-sync cancel sync-fail
 	Keep   bool   // open: keep the returned files for a while
@@ -410,8 +410,8 @@ func TestC12History(t *testing.T) {
 		var c c12HCase
 		n := rapid.IntRange(5, 30).Draw(rt, "n")
 		for i := 0; i < n; i++ {
-			a := c12Action{Kind: rapid.SampledFrom([]string{"ptrace", "unshare", "build", "build", "destroy", "execve", "execve", "execve", "open", "open", "symlink", "delete", "reset", "failing-build", "ping", "userns-fail"}).Draw(rt, "kind"),
-				Env: rapid.IntRange(0, 2).Draw(rt, "env"), Target: rapid.SampledFrom([]string{"ok", "ok", "fail-before", "fail-after-sync", "cancel", "sync-fail"}).Draw(rt, "target"),
+			a := c12Action{Kind: rapid.SampledFrom([]string{"ptrace", "unshare", "build", "build", "destroy", "execve", "execve", "execve", "open", "open", "symlink", "delete", "reset", "failing-build", "ping", "userns-fail", "broken-destroy"}).Draw(rt, "kind"),
+				Env: rapid.IntRange(0, 2).Draw(rt, "env"), Target: rapid.SampledFrom([]string{"ok", "ok", "fail-before", "fail-after-sync", "cancel", "sync-fail", "sync-fail-after-exec"}).Draw(rt, "target"),
 				Keep: rapid.Bool().Draw(rt, "keep"), Tree: rapid.IntRange(0, 2).Draw(rt, "tree") == 0}
 			c.Actions = append(c.Actions, a)
 		}
@@ -509,6 +509,20 @@ func TestC12History(t *testing.T) {
 					return vh.Violf("C12:bad-build-succeeded", "%s", desc)
 				}
 				failing++
+			case "broken-destroy":
+				// the environment's transport fails first (a request that does not fit the frame, or the init is killed),
+				// then the owner destroys it: the usual way a pool retires a broken environment
+				if l == nil {
+					continue
+				}
+				if a.Keep {
+					syscall.Kill(l.init, syscall.SIGKILL)
+					l.env.Ping()
+				} else {
+					l.env.Execve(context.Background(), container.ExecveParam{Args: []string{"/bin/true"}, Env: []string{"BIG=" + strings.Repeat("x", 48<<10)}})
+				}
+				failing++
+				fallthrough
 			case "destroy":
 				if l == nil {
 					continue
@@ -651,6 +665,17 @@ func TestC12History(t *testing.T) {
 					goto settleNow
 				case "sync-fail":
 					o.SyncFunc = func(int) error { return errC07Callback }
+					failing++
+				case "sync-fail-after-exec":
+					// the callback refuses once the program is running and has forked: everything it made has to be
+					// killed *and reaped* by the init before the call returns
+					o.SyncAfterExec = true
+					o.SyncFunc = func(int) error {
+						for dl := time.Now().Add(2 * time.Second); a.Tree && time.Now().Before(dl) && len(liveTagged(tag)) < 2; {
+							time.Sleep(time.Millisecond)
+						}
+						return errC07Callback
+					}
 					failing++
 				}
 				tr, err := runContainer(o)
